@@ -337,44 +337,44 @@ var refReasons = []string{"unknown type", "unknown extendee", "unknown request t
 // compiler reports for a workspace that breaks exactly that rule (the compiler's own wording;
 // protoc's wording differs, the subject must be the same).
 var reasonPatterns = map[string][]string{
-	"V-import-exists":        {"file does not exist", "not found"},
+	"V-import-exists":        {"file does not exist"},
 	"V-import-dup":           {"was already imported"},
 	"V-import-cycle":         {"cycle found in imports"},
-	"V-dup-symbol":           {"already defined"},
-	"V-pkg-symbol":           {"already defined"},
+	"V-dup-symbol":           {"already defined at"},
+	"V-pkg-symbol":           {"already defined as a package", "already defined at"},
 	"V-p2-label-missing":     {"field has no label"},
 	"V-p3-required":          {"label 'required' is not allowed in proto3"},
 	"V-ed-optional":          {"label 'optional' is not allowed in editions"},
 	"V-ed-required":          {"label 'required' is not allowed in proto3 or editions"},
-	"V-oneof-label":          {"oneof", "label", "syntax error"},
-	"V-map-label":            {"map", "label", "syntax error: unexpected '<'"},
-	"V-map-in-oneof":         {"map", "oneof", "syntax error"},
+	"V-oneof-label":          {"syntax error: unexpected \"optional\"", "syntax error: unexpected \"required\"", "syntax error: unexpected \"repeated\""},
+	"V-map-label":            {"syntax error: unexpected '<'", "syntax error: unexpected '>'"},
+	"V-map-in-oneof":         {"syntax error: unexpected '<'", "syntax error: unexpected '>'"},
 	"V-ext-required":         {"extension fields cannot be 'required'"},
-	"V-num-positive":         {"tag number 0 must be greater than zero", "must be greater than zero"},
+	"V-num-positive":         {"must be greater than zero"},
 	"V-num-max":              {"higher than max allowed tag number"},
 	"V-num-impl-reserved":    {"is in disallowed reserved range"},
 	"V-num-dup":              {"both have the same tag"},
 	"V-num-reserved":         {"which is in reserved range"},
 	"V-name-reserved":        {"is using a reserved name"},
 	"V-num-in-extrange":      {"which is in extension range"},
-	"V-range-overlap":        {"overlap"},
+	"V-range-overlap":        {"ranges overlap", "overlaps reserved range"},
 	"V-p3-extrange":          {"extension ranges are not allowed in proto3"},
 	"V-rname-dup":            {"is already reserved"},
 	"V-enum-empty":           {"enums must define at least one value"},
-	"V-enum-first-zero":      {"first value of", "numeric value zero"},
+	"V-enum-first-zero":      {"requires that first value of enum have numeric value zero", "first value of open enum"},
 	"V-enum-dup-num":         {"both have the same numeric value"},
 	"V-oneof-empty":          {"oneof must contain at least one field"},
-	"V-map-key":              {"map", "key", "syntax error: unexpected \"bytes\"", "syntax error: unexpected \"float\"", "syntax error: unexpected \"double\""},
+	"V-map-key":              {"syntax error: unexpected \"bytes\"", "syntax error: unexpected \"float\"", "syntax error: unexpected \"double\"", "syntax error: unexpected '>'"},
 	"V-p3-default":           {"default values are not allowed in proto3"},
 	"V-default-repeated":     {"default value cannot be set because field is repeated"},
-	"V-default-type":         {"default value", "expecting"},
+	"V-default-type":         {"option default: expecting"},
 	"V-default-message":      {"default value cannot be set because field is a message"},
-	"V-default-enum-value":   {"default value", "enum"},
-	"V-json-conflict":        {"JSON name"},
+	"V-default-enum-value":   {"has no value named", "option default: expecting enum name"},
+	"V-json-conflict":        {"conflicts with default JSON name"},
 	"V-ref-resolve":          refReasons,
 	"V-ref-kind":             refReasons,
 	"V-ext-range":            {"is not in valid range for extended type"},
-	"V-ext-dup":              {"extension with tag", "already"},
+	"V-ext-dup":              {"extension with tag"},
 	"V-p3-ext":               {"extend blocks in proto3 can only be used to define custom options"},
 	"V-closed-enum-implicit": {"cannot use closed enum"},
 }
